@@ -1,77 +1,1178 @@
-// probe (temporary)
+// c11: correspondence + monitor for "transferring delegation shares through the staking precompile
+// conserves shares, stake and reward entitlements" (x/staking/precompile/transfer_shares.go & co).
+//
+// Random histories of delegate / undelegate / redelegate / withdraw / approve / transfer / transferFrom
+// among a few EOAs run on the REAL app: every precompile operation is an EVM call from the EOA to
+// 0x…1003 (ethermint ApplyMessage → geth interpreter → fx precompile → SDK keepers); a share of the
+// delegate/undelegate/redelegate/withdraw operations goes through the SDK msg servers instead.  They are
+// interleaved with reward-producing blocks (real Finalize/Commit with fees in the fee collector),
+// validator slashing (real staking Keeper.Slash) and one jump past the unbonding time.
+//
+// After every operation
+//   - the projection of the real staking/distribution stores the model speaks about is recorded
+//     (Cases_C11*.v, evaluated against model.M_Shares.step inside coqc), and
+//   - the property monitor (independent of the model, plain big.Int on the real observables) checks:
+//     transfers move exactly x shares and leave validator tokens/shares alone, allowance accounting,
+//     both parties are paid exactly their pending rewards, Σ delegations = validator shares, every
+//     registered crisis invariant, a failed call changes nothing; every history ends with
+//     "everyone withdraws and undelegates everything", which must succeed.
+//
+// Two streams: "noself" never generates sender == recipient (everything else at full strength);
+// "self" includes it (known finding C11-1: the delegation is inflated).
 package main
 
 import (
+	"encoding/json"
 	"fmt"
 	"math/big"
+	"os"
+	"sort"
+	"strings"
+	"time"
 
 	sdkmath "cosmossdk.io/math"
 	sdk "github.com/cosmos/cosmos-sdk/types"
 	authtypes "github.com/cosmos/cosmos-sdk/x/auth/types"
+	distrkeeper "github.com/cosmos/cosmos-sdk/x/distribution/keeper"
+	distrtypes "github.com/cosmos/cosmos-sdk/x/distribution/types"
+	stakingkeeper "github.com/cosmos/cosmos-sdk/x/staking/keeper"
+	stakingtypes "github.com/cosmos/cosmos-sdk/x/staking/types"
 
-	fxstakingtypes "github.com/functionx/fx-core/v8/x/staking/types"
 	fxtypes "github.com/functionx/fx-core/v8/types"
+	fxstakingtypes "github.com/functionx/fx-core/v8/x/staking/types"
 
 	"fxverif/lib"
 )
 
-func main() {
-	c := lib.NewChain(1, 2, nil)
-	fmt.Println("height0", c.Ctx.BlockHeight())
-	if err := c.NextBlock(); err != nil {
-		panic(err)
-	}
-	fmt.Println("height after 1 block", c.Ctx.BlockHeight(), c.Height)
-	abi := fxstakingtypes.GetABI()
-	a := lib.EthKey(1, "c11", 0)
-	b := lib.EthKey(1, "c11", 1)
-	c.Mint(a.Acc(), lib.FX(100000))
-	c.Mint(b.Acc(), lib.FX(100000))
-	val := c.ValKeys[0].Val()
-	sp := lib.StakingPrecompile
-	call := func(from lib.Key, method string, args ...interface{}) lib.EvmResult {
-		data, err := abi.Pack(method, args...)
-		if err != nil {
-			panic(err)
+var one18 = big.NewInt(1e18)
+
+// ---------------------------------------------------------------- operations
+
+type Op struct {
+	K     string `json:"k"`               // delegate undelegate redelegate withdraw approve transfer transferFrom block mature slash
+	V     int    `json:"v"`               // validator (src for redelegate)
+	W     int    `json:"w,omitempty"`     // dst validator
+	A     int    `json:"a"`               // actor: delegator / owner / sender / spender(transferFrom)
+	B     int    `json:"b,omitempty"`     // spender (approve) / recipient (transfer) / from (transferFrom)
+	C     int    `json:"c,omitempty"`     // recipient (transferFrom)
+	X     string `json:"x,omitempty"`     // amount (tokens for delegate/undelegate/redelegate, whole shares otherwise)
+	Via   string `json:"via,omitempty"`   // "evm" | "msg"
+	Power int64  `json:"power,omitempty"` // slash
+	Frac  string `json:"frac,omitempty"`  // slash fraction, LegacyDec raw integer
+	Must  bool   `json:"must,omitempty"`  // exit phase: has to succeed
+}
+
+type History struct {
+	Seed   int64  `json:"seed"`
+	NVals  int    `json:"nvals"`
+	NAcc   int    `json:"nacc"`
+	Stream string `json:"stream"`
+	Ops    []Op   `json:"ops"`
+}
+
+// ---------------------------------------------------------------- snapshots of the real stores
+
+type kvBig struct {
+	ID int
+	N  *big.Int
+}
+type startRec struct {
+	ID     int
+	Prev   uint64
+	Stake  *big.Int
+	Height uint64
+}
+type VSnap struct {
+	Tokens, Shares *big.Int
+	Dels           []kvBig
+	Period         uint64
+	Hist           [][2]uint64
+	Start          []startRec
+	Slashes        [][2]uint64
+	Bonded         bool
+}
+
+func (v VSnap) del(id int) *big.Int {
+	for _, d := range v.Dels {
+		if d.ID == id {
+			return d.N
 		}
-		var res lib.EvmResult
-		err = c.Try(func(ctx sdk.Context) error {
-			res = c.EvmCall(ctx, from.Hex(), &sp, nil, 3_000_000, data)
-			if res.Err != nil {
-				return res.Err
-			}
-			if res.Failed {
-				return fmt.Errorf("vm: %s %x", res.VmError, res.Ret)
-			}
-			return nil
-		})
-		fmt.Println(method, "err=", err, "gas", res.GasUsed)
-		return res
 	}
-	show := func() {
-		v, _ := c.App.StakingKeeper.GetValidator(c.Ctx, val)
-		fmt.Println("val tokens", v.Tokens, "shares", v.DelegatorShares)
-		dels, _ := c.App.StakingKeeper.GetValidatorDelegations(c.Ctx, val)
+	return big.NewInt(0)
+}
+func (v VSnap) sumDels() *big.Int {
+	s := big.NewInt(0)
+	for _, d := range v.Dels {
+		s.Add(s, d.N)
+	}
+	return s
+}
+
+func (v VSnap) coq() string {
+	var dels, hist, start, sl []string
+	for _, d := range v.Dels {
+		dels = append(dels, lib.Pair(lib.Z(int64(d.ID)), lib.ZBig(d.N)))
+	}
+	for _, h := range v.Hist {
+		hist = append(hist, lib.Pair(lib.ZU(h[0]), lib.ZU(h[1])))
+	}
+	for _, s := range v.Start {
+		start = append(start, lib.Pair(lib.Z(int64(s.ID)), fmt.Sprintf("mk_si %s %s %s", lib.ZU(s.Prev), lib.ZBig(s.Stake), lib.ZU(s.Height))))
+	}
+	for _, s := range v.Slashes {
+		sl = append(sl, lib.Pair(lib.ZU(s[0]), lib.ZU(s[1])))
+	}
+	return fmt.Sprintf("(mk_v %s %s %s %s %s %s %s)", lib.ZBig(v.Tokens), lib.ZBig(v.Shares), lib.List(dels),
+		lib.ZU(v.Period), lib.List(hist), lib.List(start), lib.List(sl))
+}
+
+func (v VSnap) key() string { return v.coq() }
+
+type allowRec struct {
+	V, Owner, Spender int
+	N                 *big.Int
+}
+type Snap struct {
+	Vals   []VSnap
+	Allow  []allowRec
+	Reds   [][4]int
+	Ubds   [][3]int
+	Height int64
+}
+
+// ---------------------------------------------------------------- world
+
+type World struct {
+	c      *lib.Chain
+	accs   []lib.Key
+	vals   []sdk.ValAddress
+	accID  map[string]int
+	valID  map[string]int
+	smsg   stakingtypes.MsgServer
+	dmsg   distrtypes.MsgServer
+	dq     distrkeeper.Querier
+	selfOK bool // a sender == recipient transfer has been accepted in this history
+}
+
+const opBase = 100 // ids of the validator operators: 100+i
+
+func newWorld(seed int64, nVals, nAcc int) *World {
+	c := lib.NewChain(seed, nVals, nil)
+	lib.Must(c.NextBlock())
+	w := &World{c: c, accID: map[string]int{}, valID: map[string]int{}}
+	w.smsg = stakingkeeper.NewMsgServerImpl(c.App.StakingKeeper.Keeper)
+	w.dmsg = distrkeeper.NewMsgServerImpl(c.App.DistrKeeper)
+	w.dq = distrkeeper.NewQuerier(c.App.DistrKeeper)
+	for i := 0; i < nAcc; i++ {
+		k := lib.EthKey(seed, "c11", i)
+		w.accs = append(w.accs, k)
+		w.accID[k.Acc().String()] = i
+		c.Mint(k.Acc(), lib.FX(50_000_000))
+	}
+	for i, k := range c.ValKeys {
+		w.vals = append(w.vals, k.Val())
+		w.valID[k.Val().String()] = i
+		w.accID[k.Acc().String()] = opBase + i
+		// keep the validator's consensus power comfortably above zero whatever the participants do
+		_, err := w.smsg.Delegate(c.Ctx, &stakingtypes.MsgDelegate{DelegatorAddress: k.Acc().String(), ValidatorAddress: k.Val().String(), Amount: lib.FX(5_000)})
+		lib.Must(err)
+	}
+	lib.Must(c.NextBlock())
+	return w
+}
+
+func (w *World) snap(ctx sdk.Context) Snap {
+	c := w.c
+	s := Snap{Height: ctx.BlockHeight()}
+	s.Vals = make([]VSnap, len(w.vals))
+	for i, va := range w.vals {
+		v, err := c.App.StakingKeeper.GetValidator(ctx, va)
+		lib.Must(err)
+		vs := VSnap{Tokens: v.Tokens.BigInt(), Shares: v.DelegatorShares.BigInt(), Bonded: v.IsBonded() && !v.Jailed}
+		dels, err := c.App.StakingKeeper.GetValidatorDelegations(ctx, va)
+		lib.Must(err)
 		for _, d := range dels {
-			fmt.Println("  del", d.DelegatorAddress, d.Shares)
+			acc := sdk.MustAccAddressFromBech32(d.DelegatorAddress)
+			id, ok := w.accID[acc.String()]
+			if !ok {
+				panic("unknown delegator " + d.DelegatorAddress)
+			}
+			vs.Dels = append(vs.Dels, kvBig{id, d.Shares.BigInt()})
 		}
-		cur, _ := c.App.DistrKeeper.GetValidatorCurrentRewards(c.Ctx, val)
-		fmt.Println("  period", cur.Period)
+		sort.Slice(vs.Dels, func(a, b int) bool { return vs.Dels[a].ID < vs.Dels[b].ID })
+		cur, err := c.App.DistrKeeper.GetValidatorCurrentRewards(ctx, va)
+		lib.Must(err)
+		vs.Period = cur.Period
+		s.Vals[i] = vs
 	}
-	call(a, "delegateV2", val.String(), lib.FX(100).Amount.BigInt())
-	show()
-	lib.Must(c.App.BankKeeper.MintCoins(c.Ctx, "mint", sdk.NewCoins(lib.FX(10))))
-	lib.Must(c.App.BankKeeper.SendCoinsFromModuleToModule(c.Ctx, "mint", authtypes.FeeCollectorName, sdk.NewCoins(lib.FX(10))))
-	c.NextBlock()
-	c.NextBlock()
-	call(a, "transferShares", val.String(), a.Hex(), big.NewInt(0).Mul(big.NewInt(40), big.NewInt(1e18)))
-	show()
-	for _, ir := range c.App.CrisisKeeper.Routes() {
-		ctx, _ := c.Ctx.CacheContext()
-		if res, stop := ir.Invar(ctx); stop {
-			fmt.Println("BROKEN", ir.FullRoute(), res)
+	c.App.DistrKeeper.IterateValidatorHistoricalRewards(ctx, func(val sdk.ValAddress, period uint64, r distrtypes.ValidatorHistoricalRewards) bool {
+		if i, ok := w.valID[val.String()]; ok {
+			s.Vals[i].Hist = append(s.Vals[i].Hist, [2]uint64{period, uint64(r.ReferenceCount)})
+		}
+		return false
+	})
+	c.App.DistrKeeper.IterateDelegatorStartingInfos(ctx, func(val sdk.ValAddress, del sdk.AccAddress, info distrtypes.DelegatorStartingInfo) bool {
+		i, ok := w.valID[val.String()]
+		if !ok {
+			return false
+		}
+		id, ok := w.accID[del.String()]
+		if !ok {
+			panic("unknown delegator in starting info " + del.String())
+		}
+		st := big.NewInt(0)
+		if !info.Stake.IsNil() {
+			st = info.Stake.BigInt()
+		}
+		s.Vals[i].Start = append(s.Vals[i].Start, startRec{id, info.PreviousPeriod, st, info.Height})
+		return false
+	})
+	c.App.DistrKeeper.IterateValidatorSlashEvents(ctx, func(val sdk.ValAddress, height uint64, ev distrtypes.ValidatorSlashEvent) bool {
+		if i, ok := w.valID[val.String()]; ok {
+			s.Vals[i].Slashes = append(s.Vals[i].Slashes, [2]uint64{height, ev.ValidatorPeriod})
+		}
+		return false
+	})
+	for i := range s.Vals {
+		v := &s.Vals[i]
+		sort.Slice(v.Hist, func(a, b int) bool { return v.Hist[a][0] < v.Hist[b][0] })
+		sort.Slice(v.Start, func(a, b int) bool { return v.Start[a].ID < v.Start[b].ID })
+		sort.Slice(v.Slashes, func(a, b int) bool {
+			if v.Slashes[a][0] != v.Slashes[b][0] {
+				return v.Slashes[a][0] < v.Slashes[b][0]
+			}
+			return v.Slashes[a][1] < v.Slashes[b][1]
+		})
+	}
+	c.App.StakingKeeper.IterateAllAllowance(ctx, func(val sdk.ValAddress, owner, spender sdk.AccAddress, al *big.Int) bool {
+		if al.Sign() == 0 {
+			return false
+		}
+		vi, ok1 := w.valID[val.String()]
+		o, ok2 := w.accID[owner.String()]
+		sp, ok3 := w.accID[spender.String()]
+		if !ok1 || !ok2 || !ok3 {
+			panic("unknown allowance key")
+		}
+		s.Allow = append(s.Allow, allowRec{vi, o, sp, new(big.Int).Set(al)})
+		return false
+	})
+	sort.Slice(s.Allow, func(a, b int) bool {
+		x, y := s.Allow[a], s.Allow[b]
+		if x.V != y.V {
+			return x.V < y.V
+		}
+		if x.Owner != y.Owner {
+			return x.Owner < y.Owner
+		}
+		return x.Spender < y.Spender
+	})
+	lib.Must(c.App.StakingKeeper.IterateRedelegations(ctx, func(_ int64, red stakingtypes.Redelegation) bool {
+		d := w.accID[sdk.MustAccAddressFromBech32(red.DelegatorAddress).String()]
+		s.Reds = append(s.Reds, [4]int{d, w.valID[red.ValidatorSrcAddress], w.valID[red.ValidatorDstAddress], len(red.Entries)})
+		return false
+	}))
+	lib.Must(c.App.StakingKeeper.IterateUnbondingDelegations(ctx, func(_ int64, u stakingtypes.UnbondingDelegation) bool {
+		d := w.accID[sdk.MustAccAddressFromBech32(u.DelegatorAddress).String()]
+		s.Ubds = append(s.Ubds, [3]int{d, w.valID[u.ValidatorAddress], len(u.Entries)})
+		return false
+	}))
+	sort.Slice(s.Reds, func(a, b int) bool { return fmt.Sprint(s.Reds[a]) < fmt.Sprint(s.Reds[b]) })
+	sort.Slice(s.Ubds, func(a, b int) bool { return fmt.Sprint(s.Ubds[a]) < fmt.Sprint(s.Ubds[b]) })
+	return s
+}
+
+// digest: the fingerprint model.M_SharesCorr.digest computes over the model state, here over the
+// records read from the real stores (polynomial hash modulo 2^64 of a canonical serialisation, numbers as five 64-bit limbs).
+var hM = new(big.Int).SetUint64(^uint64(0))
+var hB = big.NewInt(1000003)
+
+func hstep(acc, x *big.Int) *big.Int {
+	t := new(big.Int).Mul(acc, hB)
+	t.Add(t, x)
+	t.Add(t, big.NewInt(1))
+	return t.And(t, hM)
+}
+
+func hmix(l []*big.Int) *big.Int {
+	acc := big.NewInt(7)
+	for _, x := range l {
+		y := new(big.Int).Set(x)
+		for i := 0; i < 5 && y.Sign() != 0; i++ {
+			acc = hstep(acc, new(big.Int).And(y, hM))
+			y.Rsh(y, 64)
+		}
+		acc = hstep(acc, big.NewInt(0))
+	}
+	return acc
+}
+
+func bi(n int) *big.Int    { return big.NewInt(int64(n)) }
+func bu(n uint64) *big.Int { return new(big.Int).SetUint64(n) }
+
+func (v VSnap) ser() []*big.Int {
+	l := []*big.Int{v.Tokens, v.Shares, bi(len(v.Dels))}
+	for _, d := range v.Dels {
+		l = append(l, bi(d.ID), d.N)
+	}
+	l = append(l, bu(v.Period), bi(len(v.Hist)))
+	for _, h := range v.Hist {
+		l = append(l, bu(h[0]), bu(h[1]))
+	}
+	l = append(l, bi(len(v.Start)))
+	for _, st := range v.Start {
+		l = append(l, bi(st.ID), bu(st.Prev), st.Stake, bu(st.Height))
+	}
+	l = append(l, bi(len(v.Slashes)))
+	for _, sl := range v.Slashes {
+		l = append(l, bu(sl[0]), bu(sl[1]))
+	}
+	return l
+}
+
+func (s Snap) digest() *big.Int {
+	l := []*big.Int{big.NewInt(s.Height), bi(len(s.Vals))}
+	for _, v := range s.Vals {
+		l = append(l, v.ser()...)
+	}
+	hv := hmix(l)
+	ha, hr, hu := big.NewInt(0), big.NewInt(0), big.NewInt(0)
+	for _, a := range s.Allow {
+		ha.Add(ha, hmix([]*big.Int{bi(a.V), bi(a.Owner), bi(a.Spender), a.N}))
+		ha.And(ha, hM)
+	}
+	for _, x := range s.Reds {
+		hr.Add(hr, new(big.Int).Mul(bi(x[3]), hmix([]*big.Int{bi(x[0]), bi(x[1]), bi(x[2])})))
+		hr.And(hr, hM)
+	}
+	for _, x := range s.Ubds {
+		hu.Add(hu, new(big.Int).Mul(bi(x[2]), hmix([]*big.Int{bi(x[0]), bi(x[1])})))
+		hu.And(hu, hM)
+	}
+	return hmix([]*big.Int{hv, ha, hr, hu})
+}
+
+func (s Snap) allowance(v, owner, spender int) *big.Int {
+	for _, a := range s.Allow {
+		if a.V == v && a.Owner == owner && a.Spender == spender {
+			return a.N
 		}
 	}
-	_ = sdkmath.NewInt
-	_ = fxtypes.DefaultDenom
+	return big.NewInt(0)
+}
+
+func (w *World) key(id int) lib.Key {
+	if id >= opBase {
+		return w.c.ValKeys[id-opBase]
+	}
+	return w.accs[id]
+}
+
+func (w *World) balance(ctx sdk.Context, id int) *big.Int {
+	return w.c.App.BankKeeper.GetBalance(ctx, w.key(id).Acc(), fxtypes.DefaultDenom).Amount.BigInt()
+}
+
+// pending rewards (truncated to whole coins, as a withdrawal pays them) according to the real querier
+func (w *World) pending(id, v int) (out *big.Int) {
+	defer func() {
+		if r := recover(); r != nil {
+			out = nil
+		}
+	}()
+	ctx, _ := w.c.Ctx.CacheContext()
+	res, err := w.dq.DelegationRewards(ctx, &distrtypes.QueryDelegationRewardsRequest{
+		DelegatorAddress: w.key(id).Acc().String(), ValidatorAddress: w.vals[v].String()})
+	if err != nil {
+		return nil
+	}
+	return res.Rewards.AmountOf(fxtypes.DefaultDenom).TruncateInt().BigInt()
+}
+
+// ---------------------------------------------------------------- executing one operation on the real app
+
+func bigOf(s string) *big.Int {
+	n, ok := new(big.Int).SetString(s, 10)
+	if !ok {
+		panic("bad number " + s)
+	}
+	return n
+}
+
+// evm performs the precompile call as the EOA `from`. What the EVM commits is kept (also for a reverted
+// call: that the revert leaves staking/distribution untouched is part of what is checked).
+func (w *World) evm(from int, method string, args ...interface{}) error {
+	data, err := fxstakingtypes.GetABI().Pack(method, args...)
+	lib.Must(err)
+	sp := lib.StakingPrecompile
+	var callErr error
+	err = w.c.Try(func(ctx sdk.Context) error {
+		res := w.c.EvmCall(ctx, w.key(from).Hex(), &sp, nil, 5_000_000, data)
+		if res.Err != nil {
+			return res.Err // ApplyMessage refused / panicked: nothing is committed
+		}
+		if res.Failed {
+			callErr = fmt.Errorf("evm: %s", res.VmError)
+		}
+		return nil
+	})
+	if err != nil {
+		return err
+	}
+	return callErr
+}
+
+func (w *World) validOp(o Op) bool {
+	nv := len(w.vals)
+	okAcc := func(i int) bool { return i >= 0 && i < len(w.accs) }
+	if o.K == "block" || o.K == "mature" {
+		return true
+	}
+	if o.V < 0 || o.V >= nv {
+		return false
+	}
+	switch o.K {
+	case "slash":
+		return true
+	case "redelegate":
+		return o.W >= 0 && o.W < nv && okAcc(o.A)
+	case "approve", "transfer":
+		return okAcc(o.A) && okAcc(o.B)
+	case "transferFrom":
+		return okAcc(o.A) && okAcc(o.B) && okAcc(o.C)
+	}
+	return okAcc(o.A)
+}
+
+func (w *World) apply(o Op) error {
+	c := w.c
+	val := func(i int) string { return w.vals[i].String() }
+	switch o.K {
+	case "delegate":
+		if o.Via == "msg" {
+			return c.Try(func(ctx sdk.Context) error {
+				_, err := w.smsg.Delegate(ctx, &stakingtypes.MsgDelegate{DelegatorAddress: w.key(o.A).Acc().String(), ValidatorAddress: val(o.V),
+					Amount: sdk.NewCoin(fxtypes.DefaultDenom, sdkmath.NewIntFromBigInt(bigOf(o.X)))})
+				return err
+			})
+		}
+		return w.evm(o.A, "delegateV2", val(o.V), bigOf(o.X))
+	case "undelegate":
+		if o.Via == "msg" {
+			return c.Try(func(ctx sdk.Context) error {
+				_, err := w.smsg.Undelegate(ctx, &stakingtypes.MsgUndelegate{DelegatorAddress: w.key(o.A).Acc().String(), ValidatorAddress: val(o.V),
+					Amount: sdk.NewCoin(fxtypes.DefaultDenom, sdkmath.NewIntFromBigInt(bigOf(o.X)))})
+				return err
+			})
+		}
+		return w.evm(o.A, "undelegateV2", val(o.V), bigOf(o.X))
+	case "redelegate":
+		if o.Via == "msg" {
+			return c.Try(func(ctx sdk.Context) error {
+				_, err := w.smsg.BeginRedelegate(ctx, &stakingtypes.MsgBeginRedelegate{DelegatorAddress: w.key(o.A).Acc().String(),
+					ValidatorSrcAddress: val(o.V), ValidatorDstAddress: val(o.W),
+					Amount: sdk.NewCoin(fxtypes.DefaultDenom, sdkmath.NewIntFromBigInt(bigOf(o.X)))})
+				return err
+			})
+		}
+		return w.evm(o.A, "redelegateV2", val(o.V), val(o.W), bigOf(o.X))
+	case "withdraw":
+		if o.Via == "msg" {
+			return c.Try(func(ctx sdk.Context) error {
+				_, err := w.dmsg.WithdrawDelegatorReward(ctx, &distrtypes.MsgWithdrawDelegatorReward{DelegatorAddress: w.key(o.A).Acc().String(), ValidatorAddress: val(o.V)})
+				return err
+			})
+		}
+		return w.evm(o.A, "withdraw", val(o.V))
+	case "approve":
+		return w.evm(o.A, "approveShares", val(o.V), w.key(o.B).Hex(), bigOf(o.X))
+	case "transfer":
+		return w.evm(o.A, "transferShares", val(o.V), w.key(o.B).Hex(), bigOf(o.X))
+	case "transferFrom":
+		return w.evm(o.A, "transferFromShares", val(o.V), w.key(o.B).Hex(), w.key(o.C).Hex(), bigOf(o.X))
+	case "block":
+		// fees for the next block's reward allocation
+		fee := sdk.NewCoins(sdk.NewCoin(fxtypes.DefaultDenom, sdkmath.NewIntFromBigInt(bigOf(o.X))))
+		lib.Must(c.App.BankKeeper.MintCoins(c.Ctx, "mint", fee))
+		lib.Must(c.App.BankKeeper.SendCoinsFromModuleToModule(c.Ctx, "mint", authtypes.FeeCollectorName, fee))
+		return c.NextBlock()
+	case "mature":
+		return c.NextBlockAfter(21*24*time.Hour + time.Minute)
+	case "slash":
+		return c.Try(func(ctx sdk.Context) error {
+			v, err := c.App.StakingKeeper.GetValidator(ctx, w.vals[o.V])
+			if err != nil {
+				return err
+			}
+			cons, err := v.GetConsAddr()
+			if err != nil {
+				return err
+			}
+			_, err = c.App.StakingKeeper.Slash(ctx, cons, ctx.BlockHeight(), o.Power, sdkmath.LegacyNewDecFromBigIntWithPrec(bigOf(o.Frac), 18))
+			return err
+		})
+	}
+	panic("unknown op " + o.K)
+}
+
+func (o Op) coq() string {
+	z := func(i int) string { return lib.Z(int64(i)) }
+	switch o.K {
+	case "delegate":
+		return fmt.Sprintf("Delegate %s %s %s", z(o.V), z(o.A), o.X)
+	case "undelegate":
+		return fmt.Sprintf("Undelegate %s %s %s", z(o.V), z(o.A), o.X)
+	case "redelegate":
+		return fmt.Sprintf("Redelegate %s %s %s %s", z(o.V), z(o.W), z(o.A), o.X)
+	case "withdraw":
+		return fmt.Sprintf("Withdraw %s %s", z(o.V), z(o.A))
+	case "approve":
+		return fmt.Sprintf("Approve %s %s %s %s", z(o.V), z(o.A), z(o.B), o.X)
+	case "transfer":
+		return fmt.Sprintf("Transfer %s %s %s %s", z(o.V), z(o.A), z(o.B), o.X)
+	case "transferFrom":
+		return fmt.Sprintf("TransferFrom %s %s %s %s %s", z(o.V), z(o.A), z(o.B), z(o.C), o.X)
+	case "block":
+		return "Block"
+	case "mature":
+		return "Mature"
+	case "slash":
+		return fmt.Sprintf("SlashVal %s %d %s", z(o.V), o.Power, o.Frac)
+	}
+	panic("unknown op")
+}
+
+func (o Op) touched() []int {
+	switch o.K {
+	case "block", "mature":
+		return nil
+	case "redelegate":
+		if o.V == o.W {
+			return []int{o.V}
+		}
+		return []int{o.V, o.W}
+	}
+	return []int{o.V}
+}
+
+// ---------------------------------------------------------------- monitor
+
+type monFail struct{ kind, what string }
+
+func (w *World) invariants() []monFail {
+	var out []monFail
+	for _, ir := range w.c.App.CrisisKeeper.Routes() {
+		func() {
+			defer func() {
+				if r := recover(); r != nil {
+					out = append(out, monFail{"invariant-panic:" + ir.FullRoute(), fmt.Sprintf("crisis invariant %s panicked: %v", ir.FullRoute(), r)})
+				}
+			}()
+			ctx, _ := w.c.Ctx.CacheContext()
+			if res, stop := ir.Invar(ctx); stop {
+				out = append(out, monFail{"invariant:" + ir.FullRoute(), "crisis invariant broken: " + ir.FullRoute() + ": " + oneLine(res)})
+			}
+		}()
+	}
+	return out
+}
+
+func oneLine(s string) string {
+	s = strings.Join(strings.Fields(s), " ")
+	if len(s) > 300 {
+		s = s[:300] + "…"
+	}
+	return s
+}
+
+// monitor evaluates the property on what the real app did for one operation.
+func (w *World) monitor(o Op, before, after Snap, balBefore map[int]*big.Int, pend map[int]*big.Int, err error) []monFail {
+	var out []monFail
+	add := func(kind, f string, a ...interface{}) { out = append(out, monFail{kind, fmt.Sprintf(f, a...)}) }
+	// Σ delegations = validator shares
+	for i, v := range after.Vals {
+		if v.sumDels().Cmp(v.Shares) != 0 {
+			add("sum-shares", "validator %d: sum of delegations %s != validator shares %s", i, v.sumDels(), v.Shares)
+		}
+	}
+	if o.K != "block" && o.K != "mature" && err != nil {
+		// a refused call changes nothing in staking / distribution / allowances
+		for i := range after.Vals {
+			if before.Vals[i].key() != after.Vals[i].key() {
+				add("failed-call-wrote", "%s failed (%v) but validator %d's records changed", o.K, err, i)
+			}
+		}
+		if fmt.Sprint(before.Allow) != fmt.Sprint(after.Allow) {
+			add("failed-call-wrote", "%s failed (%v) but allowances changed", o.K, err)
+		}
+	}
+	if (o.K == "transfer" || o.K == "transferFrom") && err == nil {
+		from, to, spender := o.A, o.B, -1
+		if o.K == "transferFrom" {
+			spender, from, to = o.A, o.B, o.C
+		}
+		x := new(big.Int).Mul(bigOf(o.X), one18)
+		bv, av := before.Vals[o.V], after.Vals[o.V]
+		if bv.Tokens.Cmp(av.Tokens) != 0 || bv.Shares.Cmp(av.Shares) != 0 {
+			add("transfer-validator", "transfer changed the validator: tokens %s -> %s, shares %s -> %s", bv.Tokens, av.Tokens, bv.Shares, av.Shares)
+		}
+		if from == to {
+			if bv.del(from).Cmp(av.del(from)) != 0 {
+				add("self-transfer", "transfer of %s shares to oneself changed the delegation %s -> %s", o.X, bv.del(from), av.del(from))
+			}
+		} else {
+			if d := new(big.Int).Sub(bv.del(from), av.del(from)); d.Cmp(x) != 0 {
+				add("transfer-sender", "sender's delegation changed by -%s, transferred %s", d, x)
+			}
+			if d := new(big.Int).Sub(av.del(to), bv.del(to)); d.Cmp(x) != 0 {
+				add("transfer-recipient", "recipient's delegation changed by +%s, transferred %s", d, x)
+			}
+		}
+		for _, d := range bv.Dels {
+			if d.ID != from && d.ID != to && av.del(d.ID).Cmp(d.N) != 0 {
+				add("transfer-bystander", "delegation of %d changed by a transfer between %d and %d", d.ID, from, to)
+			}
+		}
+		for i := range after.Vals {
+			if i != o.V && before.Vals[i].key() != after.Vals[i].key() {
+				add("transfer-other-validator", "transfer on validator %d changed validator %d", o.V, i)
+			}
+		}
+		if spender >= 0 {
+			ab, aa := before.allowance(o.V, from, spender), after.allowance(o.V, from, spender)
+			if ab.Cmp(bigOf(o.X)) < 0 {
+				add("allowance-exceeded", "transferFrom of %s accepted with allowance %s", o.X, ab)
+			}
+			if d := new(big.Int).Sub(ab, aa); d.Cmp(bigOf(o.X)) != 0 {
+				add("allowance-delta", "allowance went %s -> %s for a transferFrom of %s", ab, aa, o.X)
+			}
+		}
+		// both parties are paid exactly what had accrued, nothing is pending afterwards
+		if from != to {
+			for _, id := range []int{from, to} {
+				p := pend[id]
+				if p == nil {
+					continue
+				}
+				paid := new(big.Int).Sub(w.balance(w.c.Ctx, id), balBefore[id])
+				if paid.Cmp(p) != 0 {
+					add("reward-paid", "account %d had %s pending rewards, the transfer paid %s", id, p, paid)
+				}
+				if q := w.pending(id, o.V); q != nil && q.Sign() != 0 {
+					add("reward-left", "account %d still has %s pending right after the transfer", id, q)
+				}
+			}
+		}
+	}
+	if o.K == "approve" && err == nil {
+		if after.allowance(o.V, o.A, o.B).Cmp(bigOf(o.X)) != 0 {
+			add("approve", "approve(%s) left allowance %s", o.X, after.allowance(o.V, o.A, o.B))
+		}
+	}
+	if o.Must && err != nil {
+		add("exit-blocked", "%s by account %d on validator %d (amount %s) failed at the end of the history: %v", o.K, o.A, o.V, o.X, oneLine(err.Error()))
+	}
+	out = append(out, w.invariants()...)
+	return out
+}
+
+// ---------------------------------------------------------------- generator
+
+var fracs = []string{"10000000000000000", "50000000000000000", "333333333333333333", "1000000000000000", "100000000000000000", "70000000000000001"}
+
+func pickAmount(r *lib.Rand) *big.Int {
+	switch r.Intn(6) {
+	case 0:
+		return new(big.Int).Mul(big.NewInt(int64(1+r.Intn(5000))), one18)
+	case 1:
+		a := new(big.Int).Mul(big.NewInt(int64(1+r.Intn(900))), one18)
+		return a.Add(a, big.NewInt(int64(r.Intn(1_000_000_000))*int64(1+r.Intn(1_000_000_000))))
+	case 2:
+		return big.NewInt(int64(1 + r.Intn(1000)))
+	case 3:
+		return new(big.Int).Mul(big.NewInt(int64(100_000+r.Intn(900_000))), one18)
+	default:
+		return new(big.Int).Mul(big.NewInt(int64(1+r.Intn(300))), one18)
+	}
+}
+
+func via(r *lib.Rand) string {
+	if r.Chance(30) {
+		return "msg"
+	}
+	return "evm"
+}
+
+// tokens the delegation is worth (rounded as the staking module does), from the real validator
+func tokensOf(v VSnap, shares *big.Int) *big.Int {
+	if v.Shares.Sign() == 0 {
+		return big.NewInt(0)
+	}
+	t := new(big.Int).Mul(shares, v.Tokens)
+	t.Quo(t, v.Shares)
+	return t.Quo(t, one18)
+}
+
+func (w *World) gen(r *lib.Rand, s Snap, self bool) Op {
+	nv, na := len(w.vals), len(w.accs)
+	v := r.Intn(nv)
+	// accounts that hold a delegation on v
+	var holders []int
+	for _, d := range s.Vals[v].Dels {
+		if d.ID < opBase {
+			holders = append(holders, d.ID)
+		}
+	}
+	anyAcc := func() int { return r.Intn(na) }
+	holder := func() int {
+		if len(holders) > 0 && r.Chance(85) {
+			return holders[r.Intn(len(holders))]
+		}
+		return anyAcc()
+	}
+	shareAmt := func(from int) *big.Int {
+		sh := s.Vals[v].del(from)
+		whole := new(big.Int).Quo(sh, one18)
+		switch r.Intn(8) {
+		case 0, 1:
+			if whole.Sign() > 0 {
+				return whole // everything that can be moved (all of it when the shares are integral)
+			}
+		case 2:
+			return new(big.Int).Add(whole, big.NewInt(1)) // too much
+		case 3:
+			return big.NewInt(1)
+		case 4:
+			if whole.Cmp(big.NewInt(2)) >= 0 {
+				return new(big.Int).Quo(whole, big.NewInt(2))
+			}
+		}
+		if whole.Sign() > 0 {
+			return new(big.Int).Add(big.NewInt(1), new(big.Int).Rand(r.Rand, whole))
+		}
+		return big.NewInt(int64(1 + r.Intn(50)))
+	}
+	p := r.Intn(100)
+	switch {
+	case p < 20:
+		return Op{K: "delegate", V: v, A: anyAcc(), X: pickAmount(r).String(), Via: via(r)}
+	case p < 29:
+		a := holder()
+		worth := tokensOf(s.Vals[v], s.Vals[v].del(a))
+		var x *big.Int
+		switch r.Intn(4) {
+		case 0:
+			x = worth
+		case 1:
+			x = new(big.Int).Add(worth, big.NewInt(int64(1+r.Intn(3))))
+		default:
+			if worth.Sign() > 0 {
+				x = new(big.Int).Add(big.NewInt(1), new(big.Int).Rand(r.Rand, worth))
+			} else {
+				x = pickAmount(r)
+			}
+		}
+		if x.Sign() == 0 {
+			x = big.NewInt(1)
+		}
+		return Op{K: "undelegate", V: v, A: a, X: x.String(), Via: via(r)}
+	case p < 37:
+		a := holder()
+		dst := r.Intn(nv)
+		if dst == v && r.Chance(90) {
+			dst = (v + 1) % nv
+		}
+		worth := tokensOf(s.Vals[v], s.Vals[v].del(a))
+		x := worth
+		if worth.Sign() > 0 && r.Chance(70) {
+			x = new(big.Int).Add(big.NewInt(1), new(big.Int).Rand(r.Rand, worth))
+		}
+		if x.Sign() == 0 {
+			x = big.NewInt(int64(1 + r.Intn(1000)))
+		}
+		return Op{K: "redelegate", V: v, W: dst, A: a, X: x.String(), Via: via(r)}
+	case p < 44:
+		return Op{K: "withdraw", V: v, A: holder(), Via: via(r)}
+	case p < 54:
+		owner := holder()
+		sp := anyAcc()
+		var x *big.Int
+		switch r.Intn(5) {
+		case 0:
+			x = big.NewInt(0)
+		case 1:
+			x = new(big.Int).Lsh(big.NewInt(1), 255)
+		default:
+			x = shareAmt(owner)
+		}
+		return Op{K: "approve", V: v, A: owner, B: sp, X: x.String()}
+	case p < 72:
+		from := holder()
+		to := anyAcc()
+		if self && r.Chance(25) {
+			to = from
+		}
+		if !self {
+			for to == from {
+				to = anyAcc()
+			}
+		}
+		return Op{K: "transfer", V: v, A: from, B: to, X: shareAmt(from).String()}
+	case p < 84:
+		// prefer an (owner, spender) pair that has an allowance on some validator
+		from, sp := holder(), anyAcc()
+		if len(s.Allow) > 0 && r.Chance(80) {
+			a := s.Allow[r.Intn(len(s.Allow))]
+			v, from, sp = a.V, a.Owner, a.Spender
+		}
+		to := anyAcc()
+		if self && r.Chance(20) {
+			to = from
+		}
+		if !self {
+			for to == from {
+				to = anyAcc()
+			}
+		}
+		x := shareAmt(from)
+		if al := s.allowance(v, from, sp); al.Sign() > 0 && r.Chance(40) {
+			x = new(big.Int).Set(al) // exactly the allowance
+			if r.Chance(30) {
+				x.Add(x, big.NewInt(1))
+			}
+		}
+		return Op{K: "transferFrom", V: v, A: sp, B: from, C: to, X: x.String()}
+	case p < 95:
+		fee := new(big.Int).Mul(big.NewInt(int64(1+r.Intn(2000))), big.NewInt(1e15))
+		fee.Add(fee, big.NewInt(int64(r.Intn(1000))))
+		return Op{K: "block", X: fee.String()}
+	case p < 96:
+		return Op{K: "mature"}
+	default:
+		pw := new(big.Int).Quo(s.Vals[v].Tokens, new(big.Int).Mul(big.NewInt(100), one18)).Int64()
+		if r.Chance(30) {
+			pw = int64(1 + r.Intn(50))
+		}
+		return Op{K: "slash", V: v, Power: pw, Frac: fracs[r.Intn(len(fracs))]}
+	}
+}
+
+// exit phase: everyone withdraws and undelegates everything (whole tokens); all of it has to succeed
+func (w *World) exitOps(s Snap) []Op {
+	var ops []Op
+	for v := range w.vals {
+		for _, d := range s.Vals[v].Dels {
+			if d.ID >= opBase {
+				continue
+			}
+			ops = append(ops, Op{K: "withdraw", V: v, A: d.ID, Via: "evm", Must: true})
+			ops = append(ops, Op{K: "undelegate", V: v, A: d.ID, X: "all", Via: "evm", Must: true})
+		}
+	}
+	return ops
+}
+
+// the largest token amount MsgUndelegate accepts for this delegation, per the real keeper
+func (w *World) maxUndelegate(v, a int) *big.Int {
+	c := w.c
+	val, err := c.App.StakingKeeper.GetValidator(c.Ctx, w.vals[v])
+	lib.Must(err)
+	del, err := c.App.StakingKeeper.GetDelegation(c.Ctx, w.key(a).Acc(), w.vals[v])
+	if err != nil {
+		return big.NewInt(0)
+	}
+	amt := val.TokensFromShares(del.Shares).TruncateInt()
+	for i := 0; i < 3 && amt.IsPositive(); i++ {
+		if _, err := c.App.StakingKeeper.ValidateUnbondAmount(c.Ctx, w.key(a).Acc(), w.vals[v], amt); err == nil {
+			return amt.BigInt()
+		}
+		amt = amt.SubRaw(1)
+	}
+	return amt.BigInt()
+}
+
+// ---------------------------------------------------------------- running a history
+
+type stepRec struct {
+	op   Op
+	ok   bool
+	snap Snap
+}
+
+type result struct {
+	h        History
+	init     Snap
+	steps    []stepRec
+	final    Snap
+	fails    []monFail
+	failAt   int
+	nOK      map[string]int
+	selfSeen bool
+	harness  string
+}
+
+func coqObs(o Op, ok bool, s Snap, full bool) string {
+	if !full {
+		return fmt.Sprintf("mk_obs_d %s %s %d", lib.Bool(ok), s.digest(), s.Height)
+	}
+	var vals, allow, reds, ubds []string
+	for _, i := range o.touched() {
+		vals = append(vals, lib.Pair(lib.Z(int64(i)), s.Vals[i].coq()))
+	}
+	for _, a := range s.Allow {
+		allow = append(allow, lib.Pair(fmt.Sprintf("(%d, %d, %d)", a.V, a.Owner, a.Spender), lib.ZBig(a.N)))
+	}
+	for _, x := range s.Reds {
+		reds = append(reds, fmt.Sprintf("(%d, %d, %d, %d)", x[0], x[1], x[2], x[3]))
+	}
+	for _, x := range s.Ubds {
+		ubds = append(ubds, fmt.Sprintf("(%d, %d, %d)", x[0], x[1], x[2]))
+	}
+	return fmt.Sprintf("mk_obs %s %s %s %s %s %s %d", lib.Bool(ok), s.digest(), lib.List(vals), lib.List(allow), lib.List(reds), lib.List(ubds), s.Height)
+}
+
+func (res *result) coqCase(full bool) string {
+	var vals, steps, fin []string
+	for _, v := range res.init.Vals {
+		vals = append(vals, v.coq())
+	}
+	for _, st := range res.steps {
+		steps = append(steps, "("+st.op.coq()+",\n      "+coqObs(st.op, st.ok, st.snap, full)+")")
+	}
+	for _, v := range res.final.Vals {
+		fin = append(fin, v.coq())
+	}
+	return fmt.Sprintf("mk_shares_case (mk_state %s %d) %s\n    [%s]\n    %s", lib.List(vals), res.init.Height, res.init.digest(), strings.Join(steps, ";\n     "), lib.List(fin))
+}
+
+// runHistory executes a history. With r != nil the operations are generated on the fly (n of them,
+// then the exit phase); with r == nil h.Ops is replayed.
+func runHistory(h History, r *lib.Rand, n int) *result {
+	w := newWorld(h.Seed, h.NVals, h.NAcc)
+	res := &result{h: h, nOK: map[string]int{}, failAt: -1}
+	res.init = w.snap(w.c.Ctx)
+	cur := res.init
+	self := h.Stream == "self"
+	var queue []Op
+	replay := r == nil
+	if replay {
+		queue = append(queue, h.Ops...)
+		res.h.Ops = nil
+	}
+	exitQueued := false
+	for step := 0; ; step++ {
+		var o Op
+		if replay {
+			if len(queue) == 0 {
+				break
+			}
+			o, queue = queue[0], queue[1:]
+		} else if step < n {
+			o = w.gen(r, cur, self)
+		} else {
+			if !exitQueued {
+				exitQueued = true
+				// complete pending unbondings first so that the entry limit cannot refuse the exit
+				queue = append(queue, Op{K: "mature"})
+				queue = append(queue, w.exitOps(cur)...)
+			}
+			if len(queue) == 0 {
+				break
+			}
+			o, queue = queue[0], queue[1:]
+		}
+		if !w.validOp(o) {
+			res.harness = fmt.Sprintf("invalid op in history: %+v", o)
+			break
+		}
+		if o.K == "undelegate" && o.X == "all" {
+			m := w.maxUndelegate(o.V, o.A)
+			if m.Sign() == 0 {
+				continue // dust worth less than one token: nothing the message interface can remove
+			}
+			o.X = m.String()
+		}
+		res.h.Ops = append(res.h.Ops, o)
+		// real observables needed by the monitor
+		bal := map[int]*big.Int{}
+		pend := map[int]*big.Int{}
+		if o.K == "transfer" || o.K == "transferFrom" {
+			from, to := o.A, o.B
+			if o.K == "transferFrom" {
+				from, to = o.B, o.C
+			}
+			for _, id := range []int{from, to} {
+				bal[id] = w.balance(w.c.Ctx, id)
+				pend[id] = w.pending(id, o.V)
+			}
+		}
+		err := w.apply(o)
+		if (o.K == "block" || o.K == "mature") && err != nil {
+			res.fails = append(res.fails, monFail{"block-failed", "block processing failed: " + oneLine(err.Error())})
+			res.failAt = step
+			break
+		}
+		after := w.snap(w.c.Ctx)
+		ok := err == nil
+		if ok {
+			res.nOK[o.K]++
+			if o.K == "transfer" && o.A == o.B || o.K == "transferFrom" && o.B == o.C {
+				w.selfOK = true
+				res.selfSeen = true
+			}
+		}
+		res.steps = append(res.steps, stepRec{o, ok, after})
+		for i, v := range after.Vals {
+			if !v.Bonded {
+				res.harness = fmt.Sprintf("validator %d left the bonded set (outside the modelled schedule)", i)
+			}
+		}
+		if res.harness != "" {
+			break
+		}
+		if fs := w.monitor(o, cur, after, bal, pend, err); len(fs) > 0 {
+			res.fails = append(res.fails, fs...)
+			if res.failAt < 0 {
+				res.failAt = step
+			}
+			if !res.selfSeen {
+				// stop at the first failure that the known self-transfer defect cannot explain
+				cur = after
+				break
+			}
+		}
+		cur = after
+	}
+	res.final = cur
+	return res
+}
+
+// ---------------------------------------------------------------- main
+
+var nNoSelf, nSelf, nOps, nFull int
+
+func main() {
+	seed := lib.Seed()
+	mode := os.Getenv("VERIF_MODE")
+	rep := lib.NewReport("C11")
+	rep.Rule = "histories of delegate/undelegate/redelegate/withdraw/approve/transfer/transferFrom among 3-5 EOAs on 2-3 validators through the real staking precompile (30% of delegate/undelegate/redelegate/withdraw through the SDK msg servers), interleaved with fee-carrying blocks, slashing and one unbonding-time jump, closed by 'everyone withdraws and undelegates'; amounts biased to full/partial/over-limit values and exact allowances; stream noself never has sender == recipient, stream self has it in ~25% of transfers; one evaluation = one history; non-trivial = at least one accepted transfer or transferFrom and at least one reward block and the exit phase reached; distinct by full op list"
+
+	if mode == "replay" {
+		b, err := os.ReadFile(os.Getenv("VERIF_REPLAY"))
+		lib.Must(err)
+		var file struct {
+			Replay History `json:"replay"`
+		}
+		lib.Must(json.Unmarshal(b, &file))
+		res := runHistory(file.Replay, nil, 0)
+		for i, st := range res.steps {
+			fmt.Printf("%3d %-60s ok=%v\n", i, st.op.coq(), st.ok)
+		}
+		for _, f := range res.fails {
+			fmt.Println("MONITOR:", f.kind, "-", f.what)
+		}
+		if len(res.fails) > 0 {
+			os.Exit(1)
+		}
+		return
+	}
+
+	nNoSelf, nSelf, nOps, nFull = 36, 10, 45, 3
+	if lib.Tier() == "thorough" || mode == "search" {
+		nNoSelf, nSelf, nOps, nFull = 400, 60, 70, 10
+	}
+	if v := lib.EnvInt("VERIF_N", 0); v > 0 {
+		nNoSelf = int(v)
+	}
+	if v := lib.EnvInt("VERIF_NSELF", -1); v >= 0 {
+		nSelf = int(v)
+	}
+	if v := lib.EnvInt("VERIF_OPS", 0); v > 0 {
+		nOps = int(v)
+	}
+
+	r := lib.NewRand(seed)
+	itemsBy := map[string][]string{}
+	report := func(res *result) {
+		h := res.h
+		key, _ := json.Marshal(h.Ops)
+		exitReached := false
+		for _, st := range res.steps {
+			if st.op.Must {
+				exitReached = true
+			}
+		}
+		nontrivial := res.nOK["transfer"]+res.nOK["transferFrom"] > 0 && res.nOK["block"] > 0 && exitReached
+		rep.Case(string(key), nontrivial)
+		rep.Count("stream=" + h.Stream)
+		for _, st := range res.steps {
+			acc := "rejected"
+			if st.ok {
+				acc = "accepted"
+			}
+			rep.Count("op=" + st.op.K + ":" + acc)
+		}
+		rep.Count(fmt.Sprintf("history_len=%d0s", len(res.steps)/10))
+		if res.harness != "" {
+			rep.Fail(lib.Failure{Kind: "harness", What: res.harness, Sig: "C11:harness", Replay: h})
+			return
+		}
+		seen := map[string]bool{}
+		for _, f := range res.fails {
+			sig := "C11:" + f.kind
+			if res.selfSeen {
+				// everything observed after an accepted sender == recipient transfer is attributed to it
+				sig = "C11:self-transfer:" + f.kind
+			}
+			if seen[sig] {
+				continue
+			}
+			seen[sig] = true
+			rep.Fail(lib.Failure{Kind: "monitor", What: f.what, Sig: sig, Replay: h})
+		}
+		// the first histories of each stream carry the explicit records of every step (readable
+		// mismatches), the rest a fingerprint of the whole projection per step
+		itemsBy[h.Stream] = append(itemsBy[h.Stream], res.coqCase(len(itemsBy[h.Stream]) < nFull))
+	}
+
+	// 0. the model's refutation witness (P_Shares.self_transfer_witness) replayed on the real app
+	wit := History{Seed: seed, NVals: 2, NAcc: 3, Stream: "self", Ops: []Op{
+		{K: "delegate", V: 0, A: 0, X: "100000000000000000000", Via: "evm"},
+		{K: "block", X: "1000000000000000000"},
+		{K: "transfer", V: 0, A: 0, B: 0, X: "40"},
+	}}
+	wres := runHistory(wit, nil, 0)
+	report(wres)
+	if wres.selfSeen && len(wres.fails) > 0 {
+		last := wres.steps[len(wres.steps)-1].snap.Vals[0]
+		rep.Notes = append(rep.Notes, fmt.Sprintf("model witness replayed on the real precompile: delegate 100, transferShares(to = self, 40 shares) -> delegation 100e18 + %s shares, validator shares unchanged at %s (finding C11-1)",
+			new(big.Int).Sub(new(big.Int).Quo(last.del(0), one18), new(big.Int).Mul(big.NewInt(100), one18)), new(big.Int).Quo(last.Shares, one18)))
+	} else {
+		rep.Notes = append(rep.Notes, "model witness for the self-transfer defect did NOT reproduce on the real precompile")
+	}
+
+	for i := 0; i < nNoSelf+nSelf; i++ {
+		stream := "noself"
+		if i >= nNoSelf {
+			stream = "self"
+		}
+		h := History{Seed: seed*1000 + int64(i), NVals: 2 + r.Intn(2), NAcc: 3 + r.Intn(3), Stream: stream}
+		res := runHistory(h, r, nOps)
+		report(res)
+		rep.Sample(map[string]interface{}{"stream": stream, "nvals": h.NVals, "nacc": h.NAcc, "accepted": res.nOK, "first_ops": firstOps(res.h.Ops, 6)})
+	}
+	imports := []string{"lib.Dec", "model.M_Shares", "model.M_SharesCorr"}
+	lib.WriteCases("Cases_C11.v", imports, "shares_case", itemsBy["noself"], "shares_mismatch")
+	lib.WriteCases("Cases_C11self.v", imports, "shares_case", itemsBy["self"], "shares_mismatch")
+	rep.Write()
+}
+
+func firstOps(ops []Op, n int) []string {
+	var out []string
+	for i, o := range ops {
+		if i >= n {
+			break
+		}
+		out = append(out, o.coq())
+	}
+	return out
 }
